@@ -1,6 +1,7 @@
 package harness
 
 import (
+	"encoding/json"
 	"fmt"
 	"strings"
 	"time"
@@ -214,3 +215,5 @@ func sameGroup(r *Result, a, b string) bool {
 	}
 	return ga == gb
 }
+
+func jsonUnmarshal(b []byte, v any) error { return json.Unmarshal(b, v) }
